@@ -304,3 +304,149 @@ Proof.
       repeat split; auto. apply filter_In. split; [now apply in_map|].
       destruct (Nat.eqb_spec (tr i last q) last); [lia|reflexivity].
 Qed.
+
+(* ----- copy ----- *)
+Lemma setdefault_fold_id vs (c : list (nat * list nat)) :
+  (forall v, In v vs -> dget v c <> None) -> fold_left (fun c v => setdefault v c) vs c = c.
+Proof.
+  induction vs as [|v r IH]; intros H; cbn; [reflexivity|].
+  unfold setdefault at 2. destruct (dget v c) eqn:E; [|exfalso; apply (H v); [now left|exact E]].
+  apply IH. intros w Hw. apply H. now right.
+Qed.
+
+Lemma complete_closed d :
+  (forall p v, In p d -> In v (snd p) -> dget v d <> None) -> complete d = dmap dedup d.
+Proof.
+  intros H. unfold complete. f_equal.
+  assert (G : forall (l c : list (nat * list nat)), (forall p v, In p l -> In v (snd p) -> dget v c <> None) ->
+                          fold_left (fun c p => fold_left (fun c v => setdefault v c) (snd p) c) l c = c).
+  { induction l as [|p r IH]; intros c Hc; cbn; [reflexivity|].
+    rewrite setdefault_fold_id by (intros v Hv; apply (Hc p v); [now left|exact Hv]).
+    apply IH. intros q v Hq Hv. apply (Hc q v); [now right|exact Hv]. }
+  apply G, H.
+Qed.
+
+Lemma copy_ok g : g_ok g ->
+  g_ok (copy g) /\ (forall k, cnode (copy g) k <-> cnode g k) /\
+  (forall a b, cedge (copy g) a b <-> cedge g a b).
+Proof.
+  intros OK. assert (RO : rl_ok (nodes g)) by apply OK.
+  destruct (rl_copy_ok _ RO) as [RO1 S1].
+  assert (ND : NoDup (seq (nodes g))) by (apply rl_ok_view in RO; tauto).
+  unfold copy, mk_graph. rewrite S1.
+  destruct (rl_of_list_ok _ ND) as [RO2 S2].
+  rewrite complete_closed.
+  2:{ intros [i s] v Hp Hv. cbn in Hv. apply OK. apply In_dget in Hp; [|apply OK].
+      destruct OK as (_ & _ & _ & T). eapply T; eauto. }
+  split; [|split].
+  - unfold g_ok, glen. cbn [nodes edges]. rewrite S2. split; [exact RO2|split; [|split]].
+    + rewrite keys_dmap. apply OK.
+    + intros i. rewrite dget_dmap. destruct OK as (_ & _ & K & _). rewrite (K i).
+      destruct (dget i (edges g)); cbn; split; congruence.
+    + intros i s j. rewrite dget_dmap. destruct (dget i (edges g)) as [s0|] eqn:E; [|discriminate].
+      cbn [option_map]. intros [= <-] Hj. apply (proj1 (In_dedup _ _)) in Hj. destruct OK as (_ & _ & _ & T). eapply T; eauto.
+  - intros k. unfold cnode. cbn [nodes]. now rewrite S2.
+  - intros a b. unfold cedge. cbn [nodes edges]. rewrite S2. split.
+    + intros (i & j & s & Ha & Hb & Hs & Hj). rewrite dget_dmap in Hs.
+      destruct (dget i (edges g)) as [s0|] eqn:E; [|discriminate]. cbn in Hs. inversion Hs; subst.
+      apply (proj1 (In_dedup _ _)) in Hj. exists i, j, s0. auto.
+    + intros (i & j & s & Ha & Hb & Hs & Hj). exists i, j, (dedup s). rewrite dget_dmap, Hs.
+      repeat split; auto. now apply In_dedup.
+Qed.
+
+(* ----- what the graph reports: dependencies, dependees, dict(graph) ----- *)
+Lemma mapM_names g js : g_ok g -> (forall j, In j js -> j < glen g) ->
+  exists ks, names g js = Ok ks /\ Forall2 (fun j k => nth_error (seq (nodes g)) j = Some k) js ks.
+Proof.
+  intros OK. induction js as [|j r IH]; intros H; cbn.
+  - exists []. split; [reflexivity|constructor].
+  - destruct (node_at g j) as [k Hk]; [apply H; now left|].
+    destruct IH as (ks & E & F); [intros; apply H; now right|].
+    unfold names in E. unfold rl_get at 1. unfold key in *. rewrite Hk. cbn [bind]. rewrite E. cbn [bind].
+    exists (k :: ks). split; [reflexivity|]. constructor; auto.
+Qed.
+
+Lemma Forall2_In_r {A B} (R : A -> B -> Prop) l1 l2 b :
+  Forall2 R l1 l2 -> In b l2 -> exists a, In a l1 /\ R a b.
+Proof.
+  induction 1; cbn; [contradiction|]. intros [<-|H1]; [eauto|].
+  destruct (IHForall2 H1) as (a & Ha & Hr). eauto.
+Qed.
+
+Lemma Forall2_In_l {A B} (R : A -> B -> Prop) l1 l2 a :
+  Forall2 R l1 l2 -> In a l1 -> exists b, In b l2 /\ R a b.
+Proof.
+  induction 1; cbn; [contradiction|]. intros [<-|H1]; [eauto|].
+  destruct (IHForall2 H1) as (b & Hb & Hr). eauto.
+Qed.
+
+Lemma dependencies_ok g n : g_ok g ->
+  match dependencies g n false with
+  | Ok l => cnode g n /\ forall b, In b l <-> cedge g n b
+  | Raise c => c = EValue /\ ~ cnode g n
+  end.
+Proof.
+  intros OK. assert (RO : rl_ok (nodes g)) by apply OK.
+  assert (ND : NoDup (seq (nodes g))) by (apply rl_ok_view in RO; tauto).
+  unfold dependencies. rewrite (rl_index_pos _ RO).
+  destruct (pos n (seq (nodes g))) as [i|] eqn:P; cbn [bind];
+    [|split; [reflexivity|now apply pos_None]].
+  pose proof (pos_nth _ _ _ P) as Hn. pose proof (nth_lt _ _ _ Hn) as Li.
+  destruct (edges_at _ OK _ Li) as [s Hs]. unfold dgetE. rewrite Hs. cbn [bind].
+  destruct (mapM_names g s OK) as (ks & -> & F).
+  { intros j Hj. destruct OK as (_ & _ & _ & T). eapply T; eauto. }
+  split; [eapply nth_error_In, Hn|]. intros b. split.
+  - intros Hb. destruct (Forall2_In_r _ _ _ _ F Hb) as (j & Hj & Hjb). exists i, j, s. auto.
+  - intros (i' & j & s' & Hi' & Hj & Hs' & Hin).
+    assert (i' = i) by exact (nth_NoDup _ _ _ _ ND Hi' Hn). subst i'.
+    assert (s' = s) by congruence. subst s'.
+    destruct (Forall2_In_l _ _ _ _ F Hin) as (k & Hk & Hjk). unfold key in *. congruence.
+Qed.
+
+Lemma dependees_fold g i : g_ok g -> forall ks acc,
+  (forall k, In k ks -> k < glen g) ->
+  exists out, foldM (fun acc k => do s <- dgetE k (edges g);
+                                  Ok (if mem i s then acc ++ [k] else acc)) ks acc = Ok out /\
+    forall k, In k out <-> In k acc \/ (In k ks /\ exists s, dget k (edges g) = Some s /\ In i s).
+Proof.
+  intros OK. induction ks as [|k r IH]; intros acc H; cbn.
+  - exists acc. split; [reflexivity|]. intros k. split; [auto|intros [H1|[[] _]]; exact H1].
+  - destruct (edges_at _ OK k) as [s Hs]; [apply H; now left|].
+    unfold dgetE at 1. rewrite Hs. cbn [bind].
+    destruct (IH (if mem i s then acc ++ [k] else acc)) as (out & E & HO); [intros; apply H; now right|].
+    exists out. split; [exact E|]. intros x. rewrite HO. destruct (mem i s) eqn:M.
+    + apply mem_In in M. rewrite in_app_iff. cbn. split.
+      * intros [[H1|[<-|[]]]|[H1 H2]]; [now left| |right; tauto].
+        right. split; [now left|eauto].
+      * intros [H1|[[<-|H1] H2]]; [left; now left|left; right; now left|right; tauto].
+    + apply mem_false in M. split.
+      * intros [H1|[H1 H2]]; [now left|right; tauto].
+      * intros [H1|[[<-|H1] H2]]; [now left| |right; tauto]. destruct H2 as (s' & Hs' & Hi).
+        assert (s' = s) by congruence. subst. contradiction.
+Qed.
+
+Lemma dependees_ok g n : g_ok g ->
+  match dependees g n with
+  | Ok l => cnode g n /\ forall a, In a l <-> cedge g a n
+  | Raise c => c = EValue /\ ~ cnode g n
+  end.
+Proof.
+  intros OK. assert (RO : rl_ok (nodes g)) by apply OK.
+  assert (ND : NoDup (seq (nodes g))) by (apply rl_ok_view in RO; tauto).
+  unfold dependees. rewrite (rl_index_pos _ RO).
+  destruct (pos n (seq (nodes g))) as [i|] eqn:P; cbn [bind];
+    [|split; [reflexivity|now apply pos_None]].
+  pose proof (pos_nth _ _ _ P) as Hn.
+  destruct (dependees_fold g i OK (List.seq 0 (glen g)) []) as (out & -> & HO).
+  { intros k Hk. apply in_seq in Hk. lia. }
+  cbn [bind]. destruct (mapM_names g out OK) as (ks & -> & F).
+  { intros j Hj. apply HO in Hj. destruct Hj as [[]|[Hj _]]. apply in_seq in Hj. lia. }
+  split; [eapply nth_error_In, Hn|]. intros a. split.
+  - intros Ha. destruct (Forall2_In_r _ _ _ _ F Ha) as (j & Hj & Hja).
+    apply HO in Hj. destruct Hj as [[]|[_ (s & Hs & Hi)]]. exists j, i, s. auto.
+  - intros (j & i' & s & Hj & Hi' & Hs & Hin).
+    assert (i' = i) by exact (nth_NoDup _ _ _ _ ND Hi' Hn). subst i'.
+    assert (Hjo : In j out).
+    { apply HO. right. split; [|eauto]. apply in_seq. pose proof (nth_lt _ _ _ Hj). lia. }
+    destruct (Forall2_In_l _ _ _ _ F Hjo) as (k & Hk & Hjk). unfold key in *. congruence.
+Qed.
